@@ -123,6 +123,12 @@ def run(ctx):
                            "explain": "the same input parsed again later in the same process gave a different outcome",
                            "failing_input": {"count": r["different"], "inputs": [vc.show(h) for h in r.get("examples") or []]}})
     ctx.cov["second_pass"] = [{k: v for k, v in r.items() if k != "examples"} for r in second]
+    pc = vc.hrows(["-mode", "parseconc", "-seed", seed, "-n", "3000" if thorough else "400"])
+    for r in pc:
+        if r["wrong"] > 0:
+            ctx.violation({"kind": "property-violated-by-implementation", "class": "parse-differs-under-concurrency",
+                           "failing_input": {"calls": r["calls"], "wrong": r["wrong"], "inputs": [vc.show(h) for h in r.get("examples") or []]}})
+    ctx.cov["concurrent_parse"] = [{k: v for k, v in r.items() if k != "examples"} for r in pc]
     big = [r for r in rows if r.get("nomodel")]      # reader texts > 4 KiB / > 64 KiB: checked on the observations only
     rows = [r for r in rows if not r.get("nomodel")]
     bad, dom, ill = vc.model_eval(ctx, "cases_c15", rows, shard=2500 if thorough else 600)
